@@ -115,6 +115,11 @@ func main() {
 			}
 		}
 		fmt.Println(cnt)
+	case "refnames":
+		fs := flag.NewFlagSet("refnames", flag.ExitOnError)
+		fs.StringVar(&repoDir, "repo", repoDir, "repository directory")
+		fs.Parse(os.Args[2:])
+		writeRefNames(Load(loadSyntax, nil, nil, "./..."))
 	case "list":
 		var ids []string
 		for id := range props {
@@ -141,6 +146,11 @@ func runCheck(id, tier string) int {
 	}
 	r := NewReport(id, tier)
 	p := Load(loadSyntax, nil, nil, pc.Pkgs...)
+	p, canonNotes := Canonicalise(p)
+	for _, n := range canonNotes {
+		r.Notes = append(r.Notes, "canonical names: analysed as "+n)
+	}
+	r.Count("identifiers_renamed_back_to_reference_names", len(canonNotes))
 	p.Inline = pc.Inline || os.Getenv("VERIF_INLINE") == "1"
 	p.AnchorsInlined = pc.AnchorsInlined || os.Getenv("VERIF_ANCHORS_INLINED") == "1"
 	if pc.KeepCalls != nil {
